@@ -103,8 +103,9 @@ def step (st : St) (toks : List String) (impl : String) : St × LineResult :=
           | ["served", v] => match parseId v with
             | some v =>
               let (S, U) := viewOf a
-              let (mon', vs) := Spec.checkServe st.mon a.self S U x v
-              ({ st with mon := mon' }, { modelObs := shown, viols := mk vs })
+              let views := st.abs.map fun (j, b) => (j, b.self, (viewOf b).1, (viewOf b).2)
+              let (mon', vs) := Spec.checkServe st.mon views i a.self S U x v
+              ({ st with mon := mon' }, { modelObs := shown, viols := vs })
             | none => (st, { modelObs := shown })
           | _ => (st, { modelObs := shown })
         else bad
